@@ -716,11 +716,13 @@ def reader_checks(ctx, v, W, doc):
         else:
             rep.ok('C15.R1', '%s yytbl_data_load: while (bread %% %d) read8' % (tag, pi[0]))
         if padcalls:
-            after = cfg.reach(padcalls[0])
-            if all(cfg.ins_dominates(p, padcalls[0]) for p in prefix) and not any(a in after for a in armcalls) and any(padcalls[0] in cfg.reach(a) for a in armcalls):
+            # the padding loop may sit in a helper the loader calls: its position in the loader is the call site of the helper
+            anchor = pi[4] if len(pi) > 4 else padcalls[0]
+            after = cfg.reach(anchor)
+            if all(cfg.ins_dominates(p, anchor) for p in prefix) and not any(a in after for a in armcalls) and any(anchor in cfg.reach(a) for a in armcalls):
                 rep.ok('C15.R1', '%s yytbl_data_load: padding consumed after the element loop' % tag)
             else:
-                fail(rep, 'C15.R1', 'C15.R1:%s:yytbl_data_load:pad-order' % SKEL, where(padcalls[0]), 'yytbl_data_load does not consume the padding after the element loop [%s]' % tag)
+                fail(rep, 'C15.R1', 'C15.R1:%s:yytbl_data_load:pad-order' % SKEL, where(anchor), 'yytbl_data_load does not consume the padding after the element loop [%s]' % tag)
     # ---- td_flags decoding agrees
     key = 'C15.R5:%s:yytbl_data_load:flags-decode' % SKEL
     if dec is None or W['decode'] is None:
